@@ -329,6 +329,15 @@ impl<const N: usize, const T: usize> StaticLut<N, T> {
         }
     }
 
+    /// Iterator over the Luts of this size positioned on an arbitrary Lut (for external runtime monitors)
+    #[cfg(feature = "verif-hooks")]
+    pub fn verif_iter_from(start: &Self) -> StaticLutIterator<N, T> {
+        StaticLutIterator {
+            lut: *start,
+            ok: true,
+        }
+    }
+
     /// Compute the number of nodes in the BDD representing these functions
     ///
     /// This function uses the natural variable order (0 to num_vars) to build the BDD.
